@@ -78,6 +78,8 @@ for _p in ("C01", "C02", "C03", "C04", "C05", "C06", "C07", "C19"):
         "assumptions": ["identity converter over 1-4 version labels; schemas of the generated family (sgen)"],
     }
 
+for _p in ("C01", "C02", "C03", "C04", "C05", "C06", "C07"):
+    PROPS[_p]["domains"] = PROPS[_p]["domains"] + [{"name": "updx", "n_quick": 6000, "n_thorough": 200000}]
 for _p in ("C04", "C05"):
     PROPS[_p]["domains"] = PROPS[_p]["domains"] + [{"name": "hlp", "n_quick": 600, "n_thorough": 15000}]
 PROPS["C05"]["lean_modules"] = ["SMD.Properties.C05", "SMD.Properties.C04Exact"]
